@@ -137,6 +137,27 @@ entry(
     "DESIGN.md section 2, C07",
 )
 
+entry(
+    "C05",
+    "Hypothesis property-based testing against a direct assembly and solve of the kriging system, plus metamorphic relations on the real object",
+    "Generated kriging problems (6 variants incl. base Krige with unbiased x drift combinations, all 17 classes, dim 1-3 / lat-lon / space-time, "
+    "anisotropy/rotation, NaN data, mean/trend/normalizer, exact, nugget, scalar / per-point measurement error, pinv/pinvh/inv, chunks, meshes, only_mean) "
+    "are compared with estimate z'A^-1 b and variance sill - b'A^-1 b from an independently assembled system with independent geometry; get_mean vs the "
+    "generalised least squares mean; linearity, reproduction of constants and drift functions, invariance under chunk size / mesh type / permutations.",
+    "Trusted: model.covariance (C03), oracles/geometry.py, numpy.linalg; systems with cond(A) > 1e10 are discarded and counted.",
+    "DESIGN.md section 2, C05",
+)
+entry(
+    "C06",
+    "Hypothesis property-based testing: interpolation at the data, variance bounds, and coincident points vs an independently solved merged system",
+    "The C05 problem space restricted to zero measurement error is evaluated at its own conditioning locations (values reproduced through the "
+    "mean/trend/normalizer round trip, variance 0, tolerance scaled by the condition number of the independent system); for arbitrary targets and all "
+    "error settings the variance is finite, >= 0 and <= sill for simple kriging; 2-4 coincident points with different values under the pseudo-inverse "
+    "must equal the direct solve with the duplicates merged into their mean.",
+    "Trusted: as C05; cov_nugget's documented isclose window defines 'at a datum'.",
+    "DESIGN.md section 2, C06",
+)
+
 
 def main():
     props = [json.loads(l) for l in open(os.path.join(VERIF, "properties.jsonl"))]
